@@ -34,7 +34,7 @@ theorem C16_kind (st : Bool) (t : Ty) (bs : Bytes) (e : Err)
 
 /-- leftover bytes report the not-all-bytes-read message -/
 theorem C16_leftover_partial (st : Bool) (t : Ty) (v : Val) (bs x : Bytes)
-    (hp : plain t = true) (hw : WfTy t = true) (hv : HasTy t v = true) (he : toVec t v = .ok bs)
+    (hp : keysOk t = true) (hw : WfTy t = true) (hv : HasTy t v = true) (he : toVec t v = .ok bs)
     (hx : x ≠ []) :
     fromSlice st t (bs ++ x) = .err ⟨.invalidData, .notAllBytesRead⟩ :=
   C05_trailing_rejected_partial st t v bs x hp hw hv he hx
